@@ -209,6 +209,18 @@ func (s *Symer) sym(v ssa.Value) string {
 		if st := singleStore(x); st != nil {
 			return "&(" + s.Sym(st) + ")"
 		}
+		if x.Comment == "" && x.Parent() != nil {
+			// unnamed result slots (functions with defers): number them
+			k := 0
+			for _, l := range x.Parent().Locals {
+				if l == x {
+					return fmt.Sprintf("local:ret%d", k)
+				}
+				if l.Comment == "" {
+					k++
+				}
+			}
+		}
 		return "local:" + x.Comment
 	case *ssa.FieldAddr:
 		return stripAddr(s.Sym(x.X)) + "." + fieldName(x.X.Type(), x.Field)
